@@ -2,6 +2,7 @@ package gen
 
 import (
 	"math/rand"
+	"sort"
 	"strings"
 
 	"verif/harness/internal/opb"
@@ -39,7 +40,11 @@ func deltaM(b *built) M { d, _ := b.Delta.(M); return d }
 
 var opMuts = []opMut{
 	// --- signature / framing (C02, C15 overlap)
-	{"sig/bitflip", "urd", func(r *rand.Rand, b *built, cfg M) { s := segs(r, b); s[2] = flipBit(r, s[2]); b.Compact = strings.Join(s, ".") }},
+	{"sig/bitflip", "urd", func(r *rand.Rand, b *built, cfg M) {
+		s := segs(r, b)
+		s[2] = flipBit(r, s[2])
+		b.Compact = strings.Join(s, ".")
+	}},
 	{"sig/truncated", "urd", func(r *rand.Rand, b *built, cfg M) {
 		s := segs(r, b)
 		raw, _ := opb.B64.DecodeString(s[2])
@@ -125,7 +130,9 @@ var opMuts = []opMut{
 		b.Compact = strings.Join(s, ".")
 	}},
 	{"reveal/other-key", "urd", func(r *rand.Rand, b *built, cfg M) { b.Reveal = opb.NewKey(r, opb.P256).Reveal(b.Code) }},
-	{"reveal/malformed", "urd", func(r *rand.Rand, b *built, cfg M) { b.Reveal = pick(r, []string{"", "abc", "!!", opb.B64E([]byte{18, 32, 1})}) }},
+	{"reveal/malformed", "urd", func(r *rand.Rand, b *built, cfg M) {
+		b.Reveal = pick(r, []string{"", "abc", "!!", opb.B64E([]byte{18, 32, 1})})
+	}},
 	{"reveal/other-algorithm", "urd", func(r *rand.Rand, b *built, cfg M) { b.Reveal = b.Key.Reveal(37 - b.Code) }},
 	{"delta/substituted-after-signing", "ur", func(r *rand.Rand, b *built, cfg M) {
 		b.Compact = b.sign(r)
@@ -145,7 +152,9 @@ var opMuts = []opMut{
 		d["unknownMember"] = "dropped by the decoder"
 		b.Delta = d
 	}},
-	{"headers/extra", "urd", func(r *rand.Rand, b *built, cfg M) { b.Headers[pick(r, []string{"typ", "b64", "crit", "jwk", "x"})] = pick(r, []interface{}{"JWT", true, "v"}) }},
+	{"headers/extra", "urd", func(r *rand.Rand, b *built, cfg M) {
+		b.Headers[pick(r, []string{"typ", "b64", "crit", "jwk", "x"})] = pick(r, []interface{}{"JWT", true, "v"})
+	}},
 	{"headers/kid-ok", "urd", func(r *rand.Rand, b *built, cfg M) { b.Headers["kid"] = "key-1" }},
 	{"headers/alg-none", "urd", func(r *rand.Rand, b *built, cfg M) { b.Headers["alg"] = "none" }},
 	{"headers/alg-empty", "urd", func(r *rand.Rand, b *built, cfg M) { b.Headers["alg"] = "" }},
@@ -234,18 +243,24 @@ var opMuts = []opMut{
 		b.Signed[name] = j
 		b.Reveal = opb.ModelMH(b.Code, j)
 	}},
-	{"window/from-not-integer", "urd", func(r *rand.Rand, b *built, cfg M) { b.Signed["anchorFrom"] = pick(r, []interface{}{"5", true, []interface{}{}}) }},
+	{"window/from-not-integer", "urd", func(r *rand.Rand, b *built, cfg M) {
+		b.Signed["anchorFrom"] = pick(r, []interface{}{"5", true, []interface{}{}})
+	}},
 	{"request/suffix-empty", "urd", func(r *rand.Rand, b *built, cfg M) { b.Suffix = "" }},
 	{"request/signed-data-empty", "urd", func(r *rand.Rand, b *built, cfg M) { b.Extra = M{"signedData": ""} }},
 	{"request/signed-data-not-string", "urd", func(r *rand.Rand, b *built, cfg M) { b.Extra = M{"signedData": 7} }},
 	{"request/type-unknown", "curd", func(r *rand.Rand, b *built, cfg M) { b.Extra = M{"type": pick(r, []interface{}{"foo", "", "Create"})} }},
 	{"request/type-missing", "curd", func(r *rand.Rand, b *built, cfg M) { b.NoType = true }},
-	{"request/type-not-string", "curd", func(r *rand.Rand, b *built, cfg M) { b.Extra = M{"type": pick(r, []interface{}{1, true, []interface{}{}})} }},
+	{"request/type-not-string", "curd", func(r *rand.Rand, b *built, cfg M) {
+		b.Extra = M{"type": pick(r, []interface{}{1, true, []interface{}{}})}
+	}},
 	{"request/type-of-other-operation", "urd", func(r *rand.Rand, b *built, cfg M) {
 		b.Extra = M{"type": pick(r, []string{"update", "recover", "deactivate", "create"})}
 	}},
 	{"request/truncated", "curd", func(r *rand.Rand, b *built, cfg M) { x := b.bytes(r); b.Raw = x[:r.Intn(len(x))] }},
-	{"request/not-object", "curd", func(r *rand.Rand, b *built, cfg M) { b.Raw = []byte(pick(r, []string{"[]", "null", "1", `"create"`, ""})) }},
+	{"request/not-object", "curd", func(r *rand.Rand, b *built, cfg M) {
+		b.Raw = []byte(pick(r, []string{"[]", "null", "1", `"create"`, ""}))
+	}},
 	{"size/at-limit-ok", "curd", func(r *rand.Rand, b *built, cfg M) { cfg["maxOperationSize"] = len(b.bytes(r)); b.Raw = b.bytes(r) }},
 	{"size/over-limit", "curd", func(r *rand.Rand, b *built, cfg M) { x := b.bytes(r); b.Raw = x; cfg["maxOperationSize"] = len(x) - 1 }},
 	{"hash/length-at-limit-ok", "urd", func(r *rand.Rand, b *built, cfg M) { cfg["maxOperationHashLength"] = len(b.Reveal) }},
@@ -358,11 +373,49 @@ var opMuts = []opMut{
 	}},
 	{"commitment/next-recovery-malformed", "r", func(r *rand.Rand, b *built, cfg M) { b.Signed["recoveryCommitment"] = pick(r, []string{"", "abc"}) }},
 	{"deactivate/signed-suffix-mismatch", "d", func(r *rand.Rand, b *built, cfg M) { b.Signed["didSuffix"] = b.Suffix + "x" }},
+	// --- member names in a spelling encoding/json still matches to the struct field (all accepted by Go)
+	{"names/request-member-other-spelling", "curd", func(r *rand.Rand, b *built, cfg M) {
+		names := []string{"type", "didSuffix", "revealValue", "signedData", "delta"}
+		if b.Typ == "create" {
+			names = []string{"type", "suffixData", "delta"}
+		}
+		n := pick(r, names)
+		b.Respell = map[string]string{n: otherSpelling(r, n)}
+	}},
+	{"names/delta-or-suffix-data-member-other-spelling", "cur", func(r *rand.Rand, b *built, cfg M) {
+		names := []string{"updateCommitment", "patches"}
+		if b.Typ == "create" {
+			names = append(names, "deltaHash", "recoveryCommitment")
+		}
+		n := pick(r, names)
+		b.Respell = map[string]string{n: otherSpelling(r, n)}
+	}},
+	{"names/signed-data-member-other-spelling", "urd", func(r *rand.Rand, b *built, cfg M) {
+		var names []string
+		for k := range b.Signed {
+			names = append(names, k)
+		}
+		sort.Strings(names)
+		n := pick(r, names)
+		b.SignedRespell = map[string]string{n: otherSpelling(r, n)}
+	}},
+	{"names/signing-key-member-other-spelling", "urd", func(r *rand.Rand, b *built, cfg M) {
+		n := pick(r, []string{"kty", "crv", "x"})
+		b.SignedRespell = map[string]string{n: otherSpelling(r, n)}
+	}},
+	{"names/unknown-look-alike-member", "curd", func(r *rand.Rand, b *built, cfg M) {
+		// does not fold to a field: dropped like any unknown member
+		b.Extra = M{pick(r, []string{"typ", "type ", "delta_", "signed-data", "d\u00e9lta"}): "x"}
+	}},
 	// --- create
 	{"create/suffix-data-missing", "c", func(r *rand.Rand, b *built, cfg M) { b.SD = nil }},
 	{"create/recovery-commitment-malformed", "c", func(r *rand.Rand, b *built, cfg M) { b.SD["recoveryCommitment"] = pick(r, []string{"", "abc"}) }},
-	{"create/suffix-data-not-object", "c", func(r *rand.Rand, b *built, cfg M) { b.Extra = M{"suffixData": pick(r, []interface{}{"x", 1, []interface{}{}})} }},
-	{"create/anchor-origin", "c", func(r *rand.Rand, b *built, cfg M) { b.SD["anchorOrigin"] = pick(r, []interface{}{"o", M{"a": 1}, 0, false, ""}) }},
+	{"create/suffix-data-not-object", "c", func(r *rand.Rand, b *built, cfg M) {
+		b.Extra = M{"suffixData": pick(r, []interface{}{"x", 1, []interface{}{}})}
+	}},
+	{"create/anchor-origin", "c", func(r *rand.Rand, b *built, cfg M) {
+		b.SD["anchorOrigin"] = pick(r, []interface{}{"o", M{"a": 1}, 0, false, ""})
+	}},
 	{"create/type-in-suffix-data", "c", func(r *rand.Rand, b *built, cfg M) { b.SD["type"] = ident(r, 3) }},
 }
 
